@@ -36,6 +36,10 @@ def compare_with_reference(run, rule, construct, func, code_states, ref_states, 
     agree with them on the listed state variables (E3 equality)."""
     vn_sym = default_sym or (lambda k: T.sym(k))
     n_ok = 0
+    # a procedure that ends with a bare `return` and one that falls off its end finish the same way
+    for st_ in list(code_states) + list(ref_states):
+        if st_.status == "return" and (st_.ret is None or (isinstance(st_.ret, T.Poly) and T.show(st_.ret, 10) == "None")):
+            st_.status = "live"
     for cs in code_states:
         if cs.status == "raise":
             continue
@@ -123,3 +127,16 @@ def term_of_expr(model, func, expr, env=None, **kw):
 def term_of_src(src, env=None, **kw):
     vn = VN(None, None, **kw)
     return vn.ev(ast.parse(src, mode="eval").body, State(env or {}))
+
+
+def bound_args(model, func, call):
+    """the call's arguments bound to the resolved callee's parameters (defaults filled in from its signature), as source text:
+    positional / keyword spelling and explicitly passed defaults do not matter.  None when the callee is not a repo function."""
+    tgt = model.resolve_call(func, call)
+    if tgt[0] not in ("repo", "class"):
+        return None
+    try:
+        b = model.bind(call, tgt[1])
+    except Unrecognised:
+        return None
+    return {p: (unparse(n) if isinstance(n, ast.AST) else repr(n)) for p, n in b.items()}
